@@ -81,19 +81,28 @@ fn fmt6(x: f64) -> String {
 
 /// Expected canonical value; reals carry the renderings that are within the writer's stated precision.
 fn expected(o: &Object) -> Value {
+    expected_with(o, true)
+}
+
+/// `text`: whether a Rust string is a text string (writer-side objects) or just its bytes (the incremental
+/// serializer takes parser-side byte strings).
+fn expected_with(o: &Object, text: bool) -> Value {
     match o {
         Object::Real(r) => {
             let mut alts = vec![fmt6(*r), fmt6(*r - 1e-6), fmt6(*r + 1e-6)];
             alts.dedup();
             json!({"t": "real", "s": fmt6(*r), "alts": alts})
         }
-        Object::Array(a) => json!({"t": "arr", "v": a.iter().map(expected).collect::<Vec<_>>()}),
+        // a Rust string handed to the writer is TEXT: it must read back as the same characters, whatever
+        // text-string encoding the writer chose; a ByteString must read back as the same bytes
+        Object::String(s) if text => json!({"t": "text", "cps": s.chars().map(|c| c as u32).collect::<Vec<_>>()}),
+        Object::Array(a) => json!({"t": "arr", "v": a.iter().map(|x| expected_with(x, text)).collect::<Vec<_>>()}),
         Object::Dictionary(d) => {
             let mut items: Vec<(&String, &Object)> = d.iter().collect();
             items.sort_by(|a, b| a.0.as_bytes().cmp(b.0.as_bytes()));
-            json!({"t": "dict", "v": items.iter().map(|(k, v)| json!({"k": k.as_bytes(), "v": expected(v)})).collect::<Vec<_>>()})
+            json!({"t": "dict", "v": items.iter().map(|(k, v)| json!({"k": k.as_bytes(), "v": expected_with(v, text)})).collect::<Vec<_>>()})
         }
-        Object::Stream(d, data) => json!({"t": "stream", "dict": expected(&Object::Dictionary(d.clone())), "len": data.len()}),
+        Object::Stream(d, data) => json!({"t": "stream", "dict": expected_with(&Object::Dictionary(d.clone()), text), "len": data.len()}),
         other => obj_json(other),
     }
 }
@@ -205,6 +214,7 @@ fn run(a: &Args) {
             match res {
                 Ok(bytes) => {
                     let parsed = lib_parse(&bytes);
+                    let want = if via == "incremental" { expected_with(&obj, false) } else { want.clone() };
                     out.line(&json!({"ev": "case", "idx": idx, "via": via, "value": want, "bytes": bytes, "parsed": parsed,
                                      "text": String::from_utf8_lossy(&bytes).chars().take(120).collect::<String>()}));
                     out.line(&json!({"ev": "chk_ref"}));
